@@ -389,3 +389,106 @@ def r_radau_dense(rep, f, ex=None, rule="R-AFF-COLLOC"):
             rep.ok(rule, key, "u(%s) - y_old == %s (max coefficient residual %.2e)" % (str(D(th))[:8], "0" if nm == "left" else "Z_" + nm[-1] if nm.startswith("node") else "Z_3 = y_new - y_old", worst))
         else:
             rep.violation(rule, key, "Radau's interpolant at theta=%s differs from the collocation value by a coefficient of %.3e" % (str(D(th))[:8], worst), r["node"].get("sp"))
+
+
+def r_radau_start(rep, f, ex=None, rule="R-RADAU-START"):
+    """Newton's starting values are the previous step's collocation polynomial continued to the new stage points:
+    z_j = u_prev(1 + c_j * h / h_prev) - y, with u_prev the polynomial RADAU::interpolate evaluates over the same `cont`
+    blocks and h_prev the step that was accepted last (the variable whose value after an accepted step is the step taken).
+    Checked as a polynomial identity in the cont blocks; decides which way round the step ratio is."""
+    if ex is None:
+        ex = extract(f)
+    if ex["problems"]:
+        rep.inconc(rule, rule + ":extract", "; ".join(ex["problems"]))
+        return
+    sx, hk = ex["sx"], ex["hk"]
+    names, ca = ex["names"], ex["ca"]
+    recs = [r for r in hk.interp_calls if r["in_main"]]
+    if len(recs) != 1 or recs[0]["fn"] is None:
+        rep.inconc(rule, rule + ":site", "expected one StepInterpolant::new in RADAU::solve")
+        return
+    try:
+        u, isx = rk.analyse_interpolate(f, recs[0]["fn"])
+    except rk.AnalysisError as e:
+        rep.inconc(rule, rule + ":interp", str(e))
+        return
+    # starting values: the first non-zero store to each z_j in the main loop that is built from the blocks of one buffer
+    # (`B@k` atoms) only, with no stage value in it
+    H = Poly({ex["h_mono"]: 1})
+    hat = H.single_atom()
+    start = {}
+    for ev in sx.trace:
+        if ev["kind"] != "store" or not isinstance(ev.get("value"), Poly) or ev["value"].is_zero():
+            continue
+        nm = names.get(ev["key"])
+        if nm in ("z1", "z2", "z3") and nm not in start:
+            at = ev["value"].atoms()
+            if any("@" in a for a in at) and not any(a in ex["F"] or ca(a).startswith(("f1", "f2", "f3", "z1~call", "z2~call", "z3~call", "phi~f", "phi~z")) for a in at):
+                start[nm] = ev["value"]
+    if len(start) != 3:
+        rep.inconc(rule, rule + ":stores", "starting values of the Newton iteration not found (%s)" % sorted(start))
+        return
+    bases = {a.rsplit("@", 1)[0] for v in start.values() for a in v.atoms() if "@" in a}
+    if len(bases) != 1:
+        rep.inconc(rule, rule + ":cont", "starting values read more than one buffer: %s" % sorted(bases))
+        return
+    cbase = bases.pop()
+    # candidates for h_prev: scalars that divide (negative exponent) in the starting values
+    vars_ = {a for v in start.values() for m in v.t for a, e in m if e < 0 and "@" not in a}
+    vars_ |= {a for v in start.values() for m in v.t for a, e in m if "@" not in a and a != hat and DEFS.get(a, ("",))[0] == "widen"}
+
+    def expected(r):
+        out = {}
+        for j, nm in enumerate(("z1", "z2", "z3")):
+            th = Poly.const(1) + Poly.const(ex["c"][j]) * r
+            val = u.subst({"TH": th})
+            # u = cont@0 + ...: the increment is u - block 0
+            val = val - Poly.atom("cont@0")
+            ren = {a: Poly.atom(a.replace("cont@", "__B")) for a in val.atoms() if a.startswith("cont@")}
+            out[nm] = val.subst(ren)
+        return out
+
+    def canon(v):
+        ren = {a: Poly.atom("__B" + a.rsplit("@", 1)[1]) for a in v.atoms() if "@" in a and a.rsplit("@", 1)[0] == cbase}
+        return v.subst(ren)
+
+    def residual(r):
+        ex_ = expected(r)
+        worst = Decimal(0)
+        for nm in ("z1", "z2", "z3"):
+            d = canon(start[nm]) - ex_[nm]
+            for c in d.t.values():
+                worst = max(worst, abs(D(c)))
+        return worst
+    key = rule + ":" + FN
+    from poly import opaque
+    tried = []
+    for v in sorted(vars_):
+        if v == hat:
+            continue
+        V = Poly.atom(v)
+        r_ok = H * Poly({((v, -1),): 1})
+        r_inv = V * Poly({((hat, -1),): 1})
+        w1 = residual(r_ok)
+        tried.append((v, w1))
+        if w1 <= TOL * 1000:
+            # is V the previously accepted step?
+            vk = [k for k, hv in (hk.head or {}).items() if isinstance(hv, Poly) and hv.single_atom() == v]
+            acc_ok = False
+            for L in hk.latch or []:
+                for k in vk:
+                    lv = L.get(k)
+                    if isinstance(lv, Poly) and lv == H:
+                        acc_ok = True
+            if acc_ok or not vk:
+                rep.ok(rule, key, "z_j = u_prev(1 + c_j*h/h_prev) - y for j = 1..3 as polynomial identities in the dense blocks (max residual %.1e); h_prev is the step accepted last" % w1)
+            else:
+                rep.violation(rule, key, "the starting values are extrapolated with the ratio h/%s, but %s is not the step accepted last" % (v, v), hk.main_loop.get("sp"))
+            return
+        w2 = residual(r_inv)
+        if w2 <= TOL * 1000:
+            rep.violation(rule, key, "Newton's starting values are extrapolated with the inverted step ratio h_prev/h (u_prev is evaluated at 1 + c_j*h_prev/h instead of 1 + c_j*h/h_prev): "
+                          "the predictor is wrong whenever the step size changes, Newton needs more iterations or diverges on stiff problems", hk.main_loop.get("sp"))
+            return
+    rep.violation(rule, key, "Newton's starting values are not the previous collocation polynomial continued to the new stage points (no step ratio h/h_prev reproduces them; tried %s)"
+                  % [(t[0][:20], "%.1e" % t[1]) for t in tried[:3]], hk.main_loop.get("sp"))
